@@ -611,12 +611,12 @@ func genRoot(g *Gen, flavour int) rootDesc {
 		switch g.Intn(14) {
 		case 0: // existing unrecorded file
 			b.file("/home/user/notes" + fmt.Sprint(k))
-			lines = append(lines, "file /home/user/notes"+fmt.Sprint(k)+g.Pick("", " mod=0600", " uid=7", " gid=8", " mod=u+x", " mod=a-w uid=3:4"))
+			lines = append(lines, "file /home/user/notes"+fmt.Sprint(k)+g.Pick("", " mod=0600", " uid=7", " gid=8", " mod=u+x", " mod=a-w uid=3:4", " mod=a-x,u+x", " mod=-r,u+r", " mod=a-rwx,u+rw,g+r", " mod=u+s,a-s,g+s", " uid=250:0", " uid=0:0"))
 		case 1: // below a directory nobody has (defect f)
 			ext.file("/payload" + fmt.Sprint(k))
 			lines = append(lines, "file "+q("/newdir"+fmt.Sprint(k)+"/sub "+g.Pick("x", "y")+"/file")+" src=$EXT/payload"+fmt.Sprint(k))
 		case 2:
-			lines = append(lines, "file /etc/copy-of-passwd src=$$stageroot/etc/passwd"+g.Pick("", " mod=0400"))
+			lines = append(lines, "file /etc/copy-of-passwd src=$$stageroot/etc/passwd"+g.Pick("", " mod=0400", " mod=a-r,u+r uid=250:0"))
 		case 3:
 			lines = append(lines, "dir /synth"+fmt.Sprint(k)+g.Pick("", "", " mod=0750", " uid=5:7", " gid=9 mod=01777"))
 		case 4:
